@@ -372,7 +372,7 @@ CHECKS = {
     ),
     "C16": dict(
         test="TestC16", level="exploration", shards=16, cmds=["jailworker"],
-        tiers=dict(quick=dict(checks=60, timeout=600), thorough=dict(checks=4000, timeout=3000)),
+        tiers=dict(quick=dict(checks=60, timeout=600), thorough=dict(checks=1000, timeout=3400)),
         rule="rapid sequences of 1-8 DataService requests (Create, Write, Query, GetInfo, Destroy; consecutive requests "
              "often reuse a key, e.g. create-then-destroy) whose keys are assembled from components {.., ., empty, ~, "
              "backslash, names with spaces, unicode, 300-byte names, ..., the names of the directories around the data root and names sharing a prefix with the root (root, root2, root.bak, other, l5), ordinary} in 1-6 item components with a valid "
